@@ -52,7 +52,7 @@ def draw_states(st, run_index, like=None):
         kind = "bell"
     elif run_index % 8 == 4:
         kind = "density"
-    dims = [2, 2] if st.draw(3) else [2, 3]
+    dims = [[2, 3], [2, 2], [2, 2], [3, 2]][st.draw(4)]
     cplx = bool(st.draw(2))
     if like is not None:
         kind, dims, cplx = ("kets" if like["kind"] == "bell" else like["kind"]), list(like["dims"]), like["complex"]
@@ -106,9 +106,11 @@ def draw_ops(st, kind, dims, tier):
             ops.append({"op": "ppt", "party": st.draw(2), "form": st.weighted([("dual", 5), ("primal", 1)])})
         elif nm == "seh":
             lvl = 1 + (st.draw(3) == 2)
-            if lvl == 2 and dims == [2, 3] and (tier != "thorough" or st.draw(3)):
+            if lvl == 2 and sorted(dims) == [2, 3] and st.draw(3 if tier == "thorough" else 6):
                 lvl = 1
             dimform = st.weighted([("list", 3), ("scalar", 2), ("omitted", 2)])
+            if dimform == "omitted" and int(np.round(np.sqrt(dims[0] * dims[1]))) != dims[0]:
+                dimform = "scalar"  # the default (first dimension = round(sqrt(total))) describes 2x2 and 2x3, not 3x2
             ops.append({"op": "seh", "level": lvl, "dim": dimform})
         else:
             ops.append({"op": "sd"})
@@ -172,8 +174,10 @@ def run(cs, tier, run_index):
     L, probs, dims, meta = draw_states(cs.s("states"), run_index)
     ops = draw_ops(cs.s("ops"), meta["kind"], dims, tier)
     res.probe({"kets": "kets_list", "density": "density_list", "vec1d": "vec1d_list", "bell": "bell_list"}[meta["kind"]])
-    if dims == [2, 3]:
+    if sorted(dims) == [2, 3]:
         res.probe("dims_2x3")
+    if dims == [3, 2]:
+        res.probe("dims_3x2")
     if meta["complex"]:
         res.probe("complex_states")
     pristine_src = [np.array(x, copy=True) for x in L]
@@ -185,15 +189,18 @@ def run(cs, tier, run_index):
         return [np.array(x, copy=True) for x in pristine_src]
 
     # a second caller-owned list of the same shape and different contents, used in between
-    L2 = None
+    L2, dims2 = None, dims
     if cs.s("config:two").draw(3) == 2 or run_index % 8 == 7:
-        L2, probs2, _, _ = draw_states(cs.s("states:2"), -1, like=meta)
-        res.probe("two_lists_same_shape")
+        same = cs.s("config:two").draw(3) != 0
+        L2, probs2, dims2, _ = draw_states(cs.s("states:2"), -1, like=meta if same else None)
+        if len(L2[0].shape) == 1 and meta["kind"] != "vec1d":
+            L2 = [v.reshape(-1, 1) for v in L2]
+        res.probe("two_lists_same_shape" if same else "two_lists_other_shape")
     pristine, vals, names = {}, {}, []
     for k, op in enumerate(ops):
         key = json.dumps(op, sort_keys=True)
         if L2 is not None and cs.s("ops:which").draw(2) and not (meta["kind"] == "vec1d" and op["op"] == "seh"):
-            call_value(op_fn(lib, L2, probs2, dims, op), res, op["op"] + "(other list)")
+            call_value(op_fn(lib, L2, probs2, dims2, op), res, op["op"] + "(other list)")
         out = call_value(op_fn(lib, L, probs, dims, op), res, op["op"] + ("_" + op["form"] if op["op"] == "ppt" else ""))
         names.append(op["op"])
         res.log.add("op", k, key, out[1] if out[0] == "ok" else out[:2])
@@ -226,7 +233,7 @@ def run(cs, tier, run_index):
         vals.setdefault(tag, []).append(v)
         if op["op"] == "seh" and op["level"] == 2:
             res.probe("level2")
-            if dims == [2, 3]:
+            if sorted(dims) == [2, 3]:
                 res.probe("level2_2x3")
         if op["op"] == "ppt" and op["form"] == "primal":
             res.probe("primal_value")
